@@ -2099,6 +2099,121 @@ fn encode_publish<P: ToPayload, E>(
     }
 }
 
+
+// ---------------------------------------------------------------- 9-byte control packets
+/// Maximum Packet Size check shared by every sender: `len > max`
+pub open spec fn too_large(mps: Option<u32>, len: usize) -> bool {
+    match mps { Some(max) => len > max as usize, None => false }
+}
+
+pub open spec fn id_hi(id: u16) -> u8 { (id >> 8) as u8 }
+pub open spec fn id_lo(id: u16) -> u8 { (id & 0xff) as u8 }
+/// Appendix A.2: PUBACK/PUBREC/PUBCOMP always carry the reason byte, PINGREQ is two bytes
+pub open spec fn ctl_bytes(a: ControlAction) -> Seq<u8> {
+    match a {
+        ControlAction::PubAck { packet_id, reason } => seq![0x40u8, 3u8, id_hi(packet_id), id_lo(packet_id), rc_u8(reason)],
+        ControlAction::PubRec { packet_id, reason } => seq![0x50u8, 3u8, id_hi(packet_id), id_lo(packet_id), rc_u8(reason)],
+        ControlAction::PubComp { packet_id, reason } => seq![0x70u8, 3u8, id_hi(packet_id), id_lo(packet_id), rc_u8(reason)],
+        ControlAction::PingReq => seq![0xC0u8, 0u8],
+    }
+}
+pub open spec fn rel_bytes(id: u16, reason: ReasonCode) -> Seq<u8> {
+    seq![0x62u8, 3u8, id_hi(id), id_lo(id), rc_u8(reason)]
+}
+pub proof fn lemma_ctl_len(a: ControlAction) ensures ctl_bytes(a).len() == ctl_len(a) {}
+
+#[verifier::external_body]
+fn encode_control_packet(buffer: &mut [u8], packet: ControlAction) -> (r: Result<&[u8], ProtocolError>)
+    ensures
+        final(buffer)@.len() == old(buffer)@.len(),
+        old(buffer)@.len() >= CONTROL_PACKET_LEN ==> (r matches Ok(b) && b@ == ctl_bytes(packet)),
+        r matches Err(e) ==> e is Encode,
+{ unimplemented!() }
+
+#[verifier::external_body]
+fn encode_pubrel(
+    buffer: &mut [u8],
+    packet_id: u16,
+    reason: ReasonCode,
+) -> (r: Result<&[u8], ProtocolError>)
+    ensures
+        final(buffer)@.len() == old(buffer)@.len(),
+        old(buffer)@.len() >= CONTROL_PACKET_LEN ==> (r matches Ok(b) && b@ == rel_bytes(packet_id, reason)),
+        r matches Err(e) ==> e is Encode,
+{ unimplemented!() }
+
+fn require_packet_size(maximum_packet_size: Option<u32>, len: usize) -> (r: Result<(), ProtocolError>)
+    ensures
+        r == (if too_large(maximum_packet_size, len) { Err::<(), ProtocolError>(ProtocolError::PacketTooLarge) } else { Ok::<(), ProtocolError>(()) }),
+{
+    if (match maximum_packet_size { Some(max) => len > max as usize, None => false }) {
+        return Err(ProtocolError::PacketTooLarge);
+    }
+    Ok(())
+}
+
+fn serialize_control_packet<E>(
+    buffer: &mut [u8],
+    packet: ControlAction,
+    maximum_packet_size: Option<u32>,
+) -> (r: Result<&[u8], Error<E>>)
+    requires
+        old(buffer)@.len() >= CONTROL_PACKET_LEN,
+    ensures
+        too_large(maximum_packet_size, ctl_len(packet) as usize) ==> r == Err::<&[u8], Error<E>>(Error::Resource(ResourceError::PacketTooLarge)),
+        !too_large(maximum_packet_size, ctl_len(packet) as usize) ==> (r matches Ok(b) && b@ == ctl_bytes(packet)),
+{
+    let bytes = (match encode_control_packet(buffer, packet) { Ok(__v) => __v, Err(__e) => return Err(From::from(__e)) });
+    if (match maximum_packet_size { Some(max) => bytes.len() > max as usize, None => false }) {
+        return Err(Error::Resource(ResourceError::PacketTooLarge));
+    }
+    Ok(bytes)
+}
+
+fn check_control_packet_size(
+    maximum_packet_size: Option<u32>,
+    action: ControlAction,
+) -> (r: Result<(), ProtocolError>)
+    ensures
+        r == (if too_large(maximum_packet_size, ctl_len(action) as usize) { Err::<(), ProtocolError>(ProtocolError::PacketTooLarge) } else { Ok::<(), ProtocolError>(()) }),
+{
+    let mut buffer = [0u8; CONTROL_PACKET_LEN];
+    let len = (match encode_control_packet(&mut buffer, action) { Ok(__v) => __v, Err(__e) => return Err(From::from(__e)) }).len();
+    require_packet_size(maximum_packet_size, len)
+}
+
+fn check_pubrel_size(
+    maximum_packet_size: Option<u32>,
+    packet_id: u16,
+    reason: ReasonCode,
+) -> (r: Result<(), ProtocolError>)
+    ensures
+        r == (if too_large(maximum_packet_size, REL_LEN as usize) { Err::<(), ProtocolError>(ProtocolError::PacketTooLarge) } else { Ok::<(), ProtocolError>(()) }),
+{
+    let mut buffer = [0u8; CONTROL_PACKET_LEN];
+    let len = (match encode_pubrel(&mut buffer, packet_id, reason) { Ok(__v) => __v, Err(__e) => return Err(From::from(__e)) }).len();
+    require_packet_size(maximum_packet_size, len)
+}
+
+fn serialize_pubrel<E>(
+    buffer: &mut [u8],
+    packet_id: u16,
+    reason: ReasonCode,
+    maximum_packet_size: Option<u32>,
+) -> (r: Result<&[u8], Error<E>>)
+    requires
+        old(buffer)@.len() >= CONTROL_PACKET_LEN,
+    ensures
+        too_large(maximum_packet_size, REL_LEN as usize) ==> r == Err::<&[u8], Error<E>>(Error::Resource(ResourceError::PacketTooLarge)),
+        !too_large(maximum_packet_size, REL_LEN as usize) ==> (r matches Ok(b) && b@ == rel_bytes(packet_id, reason)),
+{
+    let bytes = (match encode_pubrel(buffer, packet_id, reason) { Ok(__v) => __v, Err(__e) => return Err(From::from(__e)) });
+    if (match maximum_packet_size { Some(max) => bytes.len() > max as usize, None => false }) {
+        return Err(Error::Resource(ResourceError::PacketTooLarge));
+    }
+    Ok(bytes)
+}
+
 } // verus!
 
 // ======================================================================================
@@ -2123,11 +2238,6 @@ pub struct RuntimeState {
 pub open spec fn send_interval_ms(keepalive_ms: nat) -> nat {
     let lead = if 5000 <= keepalive_ms / 2 { 5000 } else { keepalive_ms / 2 };
     (keepalive_ms - lead) as nat
-}
-
-/// Maximum Packet Size check shared by every sender: `len > max`
-pub open spec fn too_large(mps: Option<u32>, len: usize) -> bool {
-    match mps { Some(max) => len > max as usize, None => false }
 }
 
 impl RuntimeState {
@@ -2221,6 +2331,7 @@ pub open spec fn next_id(id: u16) -> u16 { if id == 65535 { 1 } else { (id + 1) 
 
 pub open spec fn sd_inv(d: SessionData) -> bool {
     wf(d.outbound) && d.packet_id.v != 0 && d.pending_server_packet_ids@.len() <= MAX_INBOUND_QOS2
+        && d.pending_server_packet_ids@.no_duplicates()
 }
 
 /// the k-th identifier probed when starting from `start` (1..=65535, cyclic)
@@ -2405,6 +2516,404 @@ fn next_packet_id(&mut self) -> (r: u16)
             }
 
 }
+    }
+}
+
+} // verus!
+
+// ======================================================================================
+// 30_inbound: src/mqtt_client/session/inbound.rs — SessionData::handle_packet
+// ======================================================================================
+verus! {
+
+pub struct Infallible { pub never: () }
+
+/// everything of SessionData except the outbound queues is unchanged
+pub open spec fn sd_frame(a: SessionData, b: SessionData) -> bool {
+    a.packet_id == b.packet_id && a.generation == b.generation && a.session_present == b.session_present
+}
+pub open spec fn sd_unchanged(a: SessionData, b: SessionData) -> bool {
+    sd_frame(a, b) && same_outbound(a.outbound, b.outbound) && a.pending_server_packet_ids@ == b.pending_server_packet_ids@
+}
+pub open spec fn rt_frame(a: RuntimeState, b: RuntimeState) -> bool {
+    a.session_resumed == b.session_resumed && a.keepalive_interval == b.keepalive_interval
+        && a.max_send_quota == b.max_send_quota && a.maximum_packet_size == b.maximum_packet_size && a.max_qos == b.max_qos
+        && a.next_ping == b.next_ping
+}
+pub open spec fn rt_unchanged(a: RuntimeState, b: RuntimeState) -> bool {
+    rt_frame(a, b) && a.send_quota == b.send_quota && a.ping_timeout == b.ping_timeout
+}
+/// the send quota after one more slot has been returned by the broker
+pub open spec fn quota_up(rt: RuntimeState) -> u16 {
+    let q = if rt.send_quota == u16::MAX { u16::MAX } else { (rt.send_quota + 1) as u16 };
+    if rt.max_send_quota < q { rt.max_send_quota } else { q }
+}
+/// o1 is o0 with the first retained entry carrying `id` removed (arena re-packed, bytes kept)
+pub open spec fn acked(o1: Outbound, o0: Outbound, id: u16) -> bool {
+    &&& rets(bv(o1), o1.retained@) =~= rets(bv(o0), o0.retained@).remove(first_ret(o0.retained@, id))
+    &&& same_queues(o1, o0)
+    &&& bv(o1).len() == bv(o0).len()
+}
+/// first failing SUBACK/UNSUBACK reason byte, if any
+pub open spec fn first_failure(codes: Seq<u8>) -> Option<ReasonCode>
+    decreases codes.len()
+{
+    if codes.len() == 0 { None } else if !rc_success(rc_from_u8(codes[0])) { Some(rc_from_u8(codes[0])) }
+    else { first_failure(codes.subrange(1, codes.len() as int)) }
+}
+pub proof fn lemma_first_failure_prefix(codes: Seq<u8>, k: int)
+    requires 0 <= k <= codes.len(), forall|j: int| 0 <= j < k ==> rc_success(rc_from_u8(#[trigger] codes[j])),
+    ensures first_failure(codes) == first_failure(codes.subrange(k, codes.len() as int))
+    decreases k
+{
+    if k > 0 {
+        let t = codes.subrange(1, codes.len() as int);
+        assert(rc_success(rc_from_u8(codes[0])));
+        assert forall|j: int| 0 <= j < k - 1 implies rc_success(rc_from_u8(#[trigger] t[j])) by { assert(t[j] == codes[j + 1]); }
+        lemma_first_failure_prefix(t, k - 1);
+        assert(t.subrange(k - 1, t.len() as int) =~= codes.subrange(k, codes.len() as int));
+    } else {
+        assert(codes.subrange(0, codes.len() as int) =~= codes);
+    }
+}
+/// swap_remove on a duplicate-free list removes exactly that value from the set of members
+pub proof fn lemma_swap_remove_set(s: Seq<u16>, i: int)
+    requires s.no_duplicates(), 0 <= i < s.len(),
+    ensures ({
+        let t = s.update(i, s.last()).drop_last();
+        &&& t.no_duplicates() && t.len() == s.len() - 1
+        &&& !t.contains(s[i])
+        &&& forall|x: u16| x != s[i] ==> t.contains(x) == s.contains(x)
+    })
+{
+    let t = s.update(i, s.last()).drop_last();
+    let n = s.len() - 1;
+    assert forall|a: int, b: int| 0 <= a < t.len() && 0 <= b < t.len() && a != b implies t[a] != t[b] by {
+        let aa = if a == i { n } else { a };
+        let bb = if b == i { n } else { b };
+        assert(t[a] == s[aa] && t[b] == s[bb]);
+    }
+    if t.contains(s[i]) {
+        let a = choose|a: int| 0 <= a < t.len() && t[a] == s[i];
+        let aa = if a == i { n } else { a };
+        assert(t[a] == s[aa]);
+    }
+    assert forall|x: u16| x != s[i] implies t.contains(x) == s.contains(x) by {
+        if s.contains(x) {
+            let a = choose|a: int| 0 <= a < s.len() && s[a] == x;
+            if a == n { assert(t[i] == x); } else { assert(t[a] == x); }
+        }
+        if t.contains(x) {
+            let a = choose|a: int| 0 <= a < t.len() && t[a] == x;
+            let aa = if a == i { n } else { a };
+            assert(s[aa] == x);
+        }
+    }
+}
+
+pub open spec fn ctl_pushed(o1: Outbound, o0: Outbound, a: ControlAction) -> bool {
+    &&& o1.pending_control@ == o0.pending_control@.push(PendingControl { action: a, state: SendState::Write { written: 0 } })
+    &&& o1.retained@ == o0.retained@ && o1.pending_release@ == o0.pending_release@ && o1.used == o0.used && bv(o1) == bv(o0)
+}
+
+impl<'a> SessionData<'a> {
+fn handle_packet(
+        &mut self,
+        runtime: &mut RuntimeState,
+        packet: ReceivedPacket<'_>,
+    ) -> (r: Result<bool, Error<Infallible>>)
+    requires
+        sd_inv(*old(self)),
+    ensures
+        sd_inv(*final(self)) && sd_frame(*final(self), *old(self)) && rt_frame(*final(runtime), *old(runtime)),
+        !(r matches Err(Error::Transport(_))),
+        packet is ConnAck ==> r == Err::<bool, Error<Infallible>>(Error::Peer(PeerError::InvalidPacket))
+            && sd_unchanged(*final(self), *old(self)) && rt_unchanged(*final(runtime), *old(runtime)),
+        packet is Disconnect ==> r == Err::<bool, Error<Infallible>>(Error::Disconnected)
+            && sd_unchanged(*final(self), *old(self)) && rt_unchanged(*final(runtime), *old(runtime)),
+        packet is PingResp ==> r == Ok::<bool, Error<Infallible>>(false) && final(runtime).ping_timeout is None
+            && final(runtime).send_quota == old(runtime).send_quota && sd_unchanged(*final(self), *old(self)),
+        (packet is SubAck && !has_ret(old(self).outbound.retained@, packet->SubAck_0.packet_id)) ==>
+            r == Ok::<bool, Error<Infallible>>(false) && sd_unchanged(*final(self), *old(self)) && rt_unchanged(*final(runtime), *old(runtime)),
+        (packet is SubAck && has_ret(old(self).outbound.retained@, packet->SubAck_0.packet_id)) ==>
+            acked(final(self).outbound, old(self).outbound, packet->SubAck_0.packet_id) && rt_unchanged(*final(runtime), *old(runtime))
+            && final(self).pending_server_packet_ids@ == old(self).pending_server_packet_ids@
+            && r == (match first_failure(packet->SubAck_0.codes@) { Some(c) => Err::<bool, Error<Infallible>>(Error::Peer(PeerError::Rejected(c))), None => Ok::<bool, Error<Infallible>>(false) }),
+        (packet is UnsubAck && !has_ret(old(self).outbound.retained@, packet->UnsubAck_0.packet_id)) ==>
+            r == Ok::<bool, Error<Infallible>>(false) && sd_unchanged(*final(self), *old(self)) && rt_unchanged(*final(runtime), *old(runtime)),
+        (packet is UnsubAck && has_ret(old(self).outbound.retained@, packet->UnsubAck_0.packet_id)) ==>
+            acked(final(self).outbound, old(self).outbound, packet->UnsubAck_0.packet_id) && rt_unchanged(*final(runtime), *old(runtime))
+            && final(self).pending_server_packet_ids@ == old(self).pending_server_packet_ids@
+            && r == (match first_failure(packet->UnsubAck_0.codes@) { Some(c) => Err::<bool, Error<Infallible>>(Error::Peer(PeerError::Rejected(c))), None => Ok::<bool, Error<Infallible>>(false) }),
+        (packet is PubAck && !has_ret(old(self).outbound.retained@, packet->PubAck_0.packet_id)) ==>
+            r == Ok::<bool, Error<Infallible>>(false) && sd_unchanged(*final(self), *old(self)) && rt_unchanged(*final(runtime), *old(runtime)),
+        (packet is PubAck && has_ret(old(self).outbound.retained@, packet->PubAck_0.packet_id)) ==>
+            acked(final(self).outbound, old(self).outbound, packet->PubAck_0.packet_id)
+            && final(self).pending_server_packet_ids@ == old(self).pending_server_packet_ids@
+            && final(runtime).ping_timeout == old(runtime).ping_timeout
+            && r == (if rc_success(reason_of(packet->PubAck_0.reason)) { Ok::<bool, Error<Infallible>>(false) } else { Err::<bool, Error<Infallible>>(Error::Peer(PeerError::Rejected(reason_of(packet->PubAck_0.reason)))) }),
+        (packet is PubAck && has_ret(old(self).outbound.retained@, packet->PubAck_0.packet_id)) ==>
+            final(runtime).send_quota == quota_up(*old(runtime)),
+        (packet is PubRec && !has_ret(old(self).outbound.retained@, packet->PubRec_0.packet_id)
+            && !has_rel(old(self).outbound.pending_release@, packet->PubRec_0.packet_id)) ==>
+            r == Ok::<bool, Error<Infallible>>(false) && sd_unchanged(*final(self), *old(self)) && rt_unchanged(*final(runtime), *old(runtime)),
+        (packet is PubRec && !has_ret(old(self).outbound.retained@, packet->PubRec_0.packet_id)
+            && has_rel(old(self).outbound.pending_release@, packet->PubRec_0.packet_id)) ==>
+            sd_unchanged(*final(self), *old(self)) && rt_unchanged(*final(runtime), *old(runtime))
+            && r == (if rc_success(reason_of(packet->PubRec_0.reason)) { Ok::<bool, Error<Infallible>>(false) } else { Err::<bool, Error<Infallible>>(Error::Peer(PeerError::Rejected(reason_of(packet->PubRec_0.reason)))) }),
+        (packet is PubRec && has_ret(old(self).outbound.retained@, packet->PubRec_0.packet_id) && !rc_success(reason_of(packet->PubRec_0.reason))) ==>
+            acked(final(self).outbound, old(self).outbound, packet->PubRec_0.packet_id)
+            && r == Err::<bool, Error<Infallible>>(Error::Peer(PeerError::Rejected(reason_of(packet->PubRec_0.reason)))),
+        (packet is PubRec && has_ret(old(self).outbound.retained@, packet->PubRec_0.packet_id) && !rc_success(reason_of(packet->PubRec_0.reason))) ==>
+            final(runtime).send_quota == quota_up(*old(runtime)),
+        (packet is PubRec && has_ret(old(self).outbound.retained@, packet->PubRec_0.packet_id) && rc_success(reason_of(packet->PubRec_0.reason))
+            && !too_large(old(runtime).maximum_packet_size, REL_LEN as usize) && old(self).outbound.pending_release@.len() < MAX_PENDING_RELEASE) ==>
+            r == Ok::<bool, Error<Infallible>>(false)
+            && rets(bv(final(self).outbound), final(self).outbound.retained@) =~= rets(bv(old(self).outbound), old(self).outbound.retained@).remove(first_ret(old(self).outbound.retained@, packet->PubRec_0.packet_id))
+            && final(self).outbound.pending_control@ == old(self).outbound.pending_control@
+            && final(self).outbound.pending_release@ == old(self).outbound.pending_release@.push(PendingRelease { packet_id: packet->PubRec_0.packet_id, reason: ReasonCode::Success, state: SendState::Write { written: 0 } }),
+        (packet is PubRec && has_ret(old(self).outbound.retained@, packet->PubRec_0.packet_id) && rc_success(reason_of(packet->PubRec_0.reason))) ==>
+            final(runtime).send_quota == old(runtime).send_quota,
+        (packet is PubComp && !has_rel(old(self).outbound.pending_release@, packet->PubComp_0.packet_id)) ==>
+            r == Ok::<bool, Error<Infallible>>(false) && sd_unchanged(*final(self), *old(self)) && rt_unchanged(*final(runtime), *old(runtime)),
+        (packet is PubComp && has_rel(old(self).outbound.pending_release@, packet->PubComp_0.packet_id)) ==>
+            final(self).outbound.pending_release@ =~= old(self).outbound.pending_release@.remove(first_rel(old(self).outbound.pending_release@, packet->PubComp_0.packet_id))
+            && final(self).outbound.retained@ == old(self).outbound.retained@ && final(self).outbound.pending_control@ == old(self).outbound.pending_control@
+            && bv(final(self).outbound) == bv(old(self).outbound) && final(self).outbound.used == old(self).outbound.used
+            && r == (if rc_success(reason_of(packet->PubComp_0.reason)) { Ok::<bool, Error<Infallible>>(false) } else { Err::<bool, Error<Infallible>>(Error::Peer(PeerError::Rejected(reason_of(packet->PubComp_0.reason)))) }),
+        (packet is PubComp && has_rel(old(self).outbound.pending_release@, packet->PubComp_0.packet_id)) ==>
+            final(runtime).send_quota == quota_up(*old(runtime)),
+        packet is PubRel ==> {
+            let rel = packet->PubRel_0;
+            let known = old(self).pending_server_packet_ids@.contains(rel.packet_id);
+            let action = ControlAction::PubComp { packet_id: rel.packet_id, reason: if known { ReasonCode::Success } else { ReasonCode::PacketIdNotFound } };
+            &&& rt_unchanged(*final(runtime), *old(runtime))
+            &&& !final(self).pending_server_packet_ids@.contains(rel.packet_id)
+            &&& forall|x: u16| x != rel.packet_id ==> final(self).pending_server_packet_ids@.contains(x) == old(self).pending_server_packet_ids@.contains(x)
+            &&& !known ==> final(self).pending_server_packet_ids@ == old(self).pending_server_packet_ids@
+            &&& (!too_large(old(runtime).maximum_packet_size, 5) && old(self).outbound.pending_control@.len() < MAX_PENDING_CONTROL) ==>
+                    r == Ok::<bool, Error<Infallible>>(false) && ctl_pushed(final(self).outbound, old(self).outbound, action)
+            &&& too_large(old(runtime).maximum_packet_size, 5) ==> r == Err::<bool, Error<Infallible>>(Error::Resource(ResourceError::PacketTooLarge))
+                    && same_outbound(final(self).outbound, old(self).outbound)
+        },
+        (packet is Publish && packet->Publish_0.qos == QoS::AtMostOnce) ==>
+            r == Ok::<bool, Error<Infallible>>(true) && sd_unchanged(*final(self), *old(self)) && rt_unchanged(*final(runtime), *old(runtime)),
+        (packet is Publish && packet->Publish_0.qos == QoS::AtLeastOnce && packet->Publish_0.packet_id is Some) ==> {
+            let id = packet->Publish_0.packet_id->Some_0;
+            let action = ControlAction::PubAck { packet_id: id, reason: if old(self).pending_server_packet_ids@.contains(id) { ReasonCode::PacketIdInUse } else { ReasonCode::Success } };
+            &&& rt_unchanged(*final(runtime), *old(runtime))
+            &&& final(self).pending_server_packet_ids@ == old(self).pending_server_packet_ids@
+            &&& (!too_large(old(runtime).maximum_packet_size, 5) && old(self).outbound.pending_control@.len() < MAX_PENDING_CONTROL) ==>
+                    r == Ok::<bool, Error<Infallible>>(true) && ctl_pushed(final(self).outbound, old(self).outbound, action)
+            &&& too_large(old(runtime).maximum_packet_size, 5) ==> r == Err::<bool, Error<Infallible>>(Error::Resource(ResourceError::PacketTooLarge))
+                    && same_outbound(final(self).outbound, old(self).outbound)
+        },
+        (packet is Publish && packet->Publish_0.qos == QoS::ExactlyOnce && packet->Publish_0.packet_id is Some) ==> {
+            let id = packet->Publish_0.packet_id->Some_0;
+            let dup = old(self).pending_server_packet_ids@.contains(id);
+            let full = old(self).pending_server_packet_ids@.len() >= MAX_INBOUND_QOS2;
+            let action = ControlAction::PubRec { packet_id: id, reason: if !dup && full { ReasonCode::ReceiveMaxExceeded } else { ReasonCode::Success } };
+            &&& rt_unchanged(*final(runtime), *old(runtime))
+            &&& final(self).pending_server_packet_ids@ == (if !dup && !full { old(self).pending_server_packet_ids@.push(id) } else { old(self).pending_server_packet_ids@ })
+            &&& (!too_large(old(runtime).maximum_packet_size, 5) && old(self).outbound.pending_control@.len() < MAX_PENDING_CONTROL) ==>
+                    r == Ok::<bool, Error<Infallible>>(!dup && !full) && ctl_pushed(final(self).outbound, old(self).outbound, action)
+            &&& too_large(old(runtime).maximum_packet_size, 5) ==> r == Err::<bool, Error<Infallible>>(Error::Resource(ResourceError::PacketTooLarge))
+                    && same_outbound(final(self).outbound, old(self).outbound)
+        },
+        (packet is Publish && packet->Publish_0.qos != QoS::AtMostOnce && packet->Publish_0.packet_id is None) ==>
+            r == Err::<bool, Error<Infallible>>(Error::Peer(PeerError::InvalidPacket)) && sd_unchanged(*final(self), *old(self)) && rt_unchanged(*final(runtime), *old(runtime)),
+{
+        match packet {
+            ReceivedPacket::ConnAck(_) => return Err(ProtocolError::UnexpectedPacket.into()),
+            ReceivedPacket::SubAck(ack) => {
+                if !self.outbound.ack_packet(ack.packet_id) {
+
+                    return Ok(false);
+                }
+
+                let __s1 = ack.codes; let mut __i1: usize = 0;
+        while __i1 < __s1.len() 
+                    invariant
+                        __i1 <= __s1@.len(), __s1@ == ack.codes@,
+                        packet is SubAck, packet->SubAck_0.packet_id == ack.packet_id, packet->SubAck_0.codes@ == ack.codes@,
+                        has_ret(old(self).outbound.retained@, ack.packet_id),
+                        forall|j: int| 0 <= j < __i1 ==> rc_success(rc_from_u8(#[trigger] __s1@[j])),
+                        sd_inv(*self), sd_frame(*self, *old(self)), rt_unchanged(*runtime, *old(runtime)),
+                        self.pending_server_packet_ids@ == old(self).pending_server_packet_ids@,
+                        acked(self.outbound, old(self).outbound, ack.packet_id),
+                    decreases __s1@.len() - __i1
+{
+            let code = __s1[__i1];
+                    proof {
+                        lemma_first_failure_prefix(ack.codes@, __i1 as int);
+                        let t = ack.codes@.subrange(__i1 as int, ack.codes@.len() as int);
+                        assert(t[0] == code);
+                        if rc_success(rc_from_u8(code)) {} else { assert(first_failure(t) == Some(rc_from_u8(code))); }
+                    }
+
+                    (match ReasonCode::from(code).as_result() { Ok(__v) => __v, Err(__e) => return Err(From::from(__e)) });
+                    __i1 += 1;
+        }
+            }
+            ReceivedPacket::UnsubAck(ack) => {
+                if !self.outbound.ack_packet(ack.packet_id) {
+
+                    return Ok(false);
+                }
+
+                let __s2 = ack.codes; let mut __i2: usize = 0;
+        while __i2 < __s2.len() 
+                    invariant
+                        __i2 <= __s2@.len(), __s2@ == ack.codes@,
+                        packet is UnsubAck, packet->UnsubAck_0.packet_id == ack.packet_id, packet->UnsubAck_0.codes@ == ack.codes@,
+                        has_ret(old(self).outbound.retained@, ack.packet_id),
+                        forall|j: int| 0 <= j < __i2 ==> rc_success(rc_from_u8(#[trigger] __s2@[j])),
+                        sd_inv(*self), sd_frame(*self, *old(self)), rt_unchanged(*runtime, *old(runtime)),
+                        self.pending_server_packet_ids@ == old(self).pending_server_packet_ids@,
+                        acked(self.outbound, old(self).outbound, ack.packet_id),
+                    decreases __s2@.len() - __i2
+{
+            let code = __s2[__i2];
+                    proof {
+                        lemma_first_failure_prefix(ack.codes@, __i2 as int);
+                        let t = ack.codes@.subrange(__i2 as int, ack.codes@.len() as int);
+                        assert(t[0] == code);
+                        if rc_success(rc_from_u8(code)) {} else { assert(first_failure(t) == Some(rc_from_u8(code))); }
+                    }
+
+                    (match ReasonCode::from(code).as_result() { Ok(__v) => __v, Err(__e) => return Err(From::from(__e)) });
+                    __i2 += 1;
+        }
+            }
+            ReceivedPacket::PingResp => {
+
+                runtime.ping_timeout = None;
+            }
+            ReceivedPacket::PubAck(ack) => {
+                if !self.outbound.ack_packet(ack.packet_id) {
+
+                    return Ok(false);
+                }
+                runtime.send_quota = runtime
+                    .send_quota
+                    .saturating_add(1)
+                    .min(runtime.max_send_quota);
+
+                (match ack.reason.code().as_result() { Ok(__v) => __v, Err(__e) => return Err(From::from(__e)) });
+            }
+            ReceivedPacket::PubRec(rec) => {
+                let queue_release = match self.outbound.ack_packet(rec.packet_id) {
+                    true => {
+
+                        if rec.reason.code().failed() {
+                            runtime.send_quota = runtime
+                                .send_quota
+                                .saturating_add(1)
+                                .min(runtime.max_send_quota);
+                        }
+
+                        true
+                    }
+                    false if self.outbound.has_pending_release(rec.packet_id) => {
+
+                        false
+                    }
+                    false => {
+
+                        return Ok(false);
+                    }
+                };
+                (match rec.reason.code().as_result() { Ok(__v) => __v, Err(__e) => return Err(From::from(__e)) });
+                if queue_release {
+                    (match check_pubrel_size(
+                        runtime.maximum_packet_size,
+                        rec.packet_id,
+                        ReasonCode::Success,
+                    ) { Ok(__v) => __v, Err(__e) => return Err(From::from(__e)) });
+                    (match self.outbound
+                        .queue_release(rec.packet_id, ReasonCode::Success) { Ok(__v) => __v, Err(__e) => return Err(From::from(__e)) });
+
+                }
+            }
+            ReceivedPacket::PubComp(comp) => {
+                if !self.outbound.ack_release(comp.packet_id) {
+
+                    return Ok(false);
+                }
+                runtime.send_quota = runtime
+                    .send_quota
+                    .saturating_add(1)
+                    .min(runtime.max_send_quota);
+
+                (match comp.reason.code().as_result() { Ok(__v) => __v, Err(__e) => return Err(From::from(__e)) });
+            }
+            ReceivedPacket::PubRel(rel) => {
+                let reason = if let Some(index) = self
+                    .pending_server_packet_ids.position_of(|id| -> (__r: bool) ensures __r == (*id == rel.packet_id) { *id == rel.packet_id })
+                {
+                    self.pending_server_packet_ids.swap_remove(index);
+                    proof { lemma_swap_remove_set(old(self).pending_server_packet_ids@, index as int); }
+
+                    ReasonCode::Success
+                } else {
+                    ReasonCode::PacketIdNotFound
+                };
+
+                let action = ControlAction::PubComp {
+                    packet_id: rel.packet_id,
+                    reason,
+                };
+                (match check_control_packet_size(runtime.maximum_packet_size, action) { Ok(__v) => __v, Err(__e) => return Err(From::from(__e)) });
+                (match self.outbound.queue_control(action) { Ok(__v) => __v, Err(__e) => return Err(From::from(__e)) });
+            }
+            ReceivedPacket::Publish(info) => {
+
+                match info.qos {
+                    QoS::AtMostOnce => {}
+                    QoS::AtLeastOnce => {
+                        let packet_id = (match info.packet_id.ok_or(ProtocolError::MalformedPacket) { Ok(__v) => __v, Err(__e) => return Err(From::from(__e)) });
+                        let reason = if self.pending_server_packet_ids.contains(&packet_id) {
+                            ReasonCode::PacketIdInUse
+                        } else {
+                            ReasonCode::Success
+                        };
+
+                        let action = ControlAction::PubAck { packet_id, reason };
+                        (match check_control_packet_size(runtime.maximum_packet_size, action) { Ok(__v) => __v, Err(__e) => return Err(From::from(__e)) });
+                        (match self.outbound.queue_control(action) { Ok(__v) => __v, Err(__e) => return Err(From::from(__e)) });
+                    }
+                    QoS::ExactlyOnce => {
+                        let packet_id = (match info.packet_id.ok_or(ProtocolError::MalformedPacket) { Ok(__v) => __v, Err(__e) => return Err(From::from(__e)) });
+                        let duplicate = self.pending_server_packet_ids.contains(&packet_id);
+                        let reason = if !duplicate {
+                            (match self.pending_server_packet_ids
+                                .push(packet_id) { Ok(_) => ReasonCode::Success, Err(_) => ReasonCode::ReceiveMaxExceeded })
+                        } else {
+                            ReasonCode::Success
+                        };
+
+                        let action = ControlAction::PubRec { packet_id, reason };
+                        (match check_control_packet_size(runtime.maximum_packet_size, action) { Ok(__v) => __v, Err(__e) => return Err(From::from(__e)) });
+                        (match self.outbound.queue_control(action) { Ok(__v) => __v, Err(__e) => return Err(From::from(__e)) });
+                        if duplicate || !reason.success() {
+
+                            return Ok(false);
+                        }
+                    }
+                }
+                return Ok(true);
+            }
+            ReceivedPacket::Disconnect(disconnect) => {
+
+                return Err(Error::Disconnected);
+            }
+        }
+        proof {
+            if packet is SubAck { let c = packet->SubAck_0.codes@; lemma_first_failure_prefix(c, c.len() as int); }
+            if packet is UnsubAck { let c = packet->UnsubAck_0.codes@; lemma_first_failure_prefix(c, c.len() as int); }
+        }
+
+        Ok(false)
     }
 }
 
